@@ -1655,7 +1655,7 @@ func (e *Engine) convert(s *State, v Value, from, to types.Type) Value {
 					e.errf("[]rune(string) unsupported")
 				}
 				arr := e.newFillArr(sv.Len, 0)
-				arr = e.baCopy(arr, c.BV(0, 64), sv.Str, sv.Off, sv.Len)
+				arr = e.baCopy(arr, c.BV(0, 64), e.arrOf(s, sv), sv.Off, sv.Len)
 				o := e.newObj(s, arr, to, "[]byte(string)")
 				return &SliceV{Base: &Pointer{Obj: o.ID}, Off: c.BV(0, 64), Len: sv.Len, Cap: sv.Len}
 			}
